@@ -24,21 +24,37 @@ pub struct RTy {
     pub width: usize,
     /// number of nodes of the type tree (saturating) — a size measure for generators
     pub size: usize,
+    /// structural hash (equal types have equal hashes)
+    pub hash: u64,
+}
+
+fn mix(tag: u64, a: u64, b: u64) -> u64 {
+    let mut h = crate::engine::Fnv::new();
+    h.write_u64(tag);
+    h.write_u64(a);
+    h.write_u64(b);
+    h.finish()
 }
 
 impl RTy {
     pub fn unit() -> Arc<RTy> {
-        Arc::new(RTy { kind: RTyKind::Unit, width: 0, size: 1 })
+        Arc::new(RTy { kind: RTyKind::Unit, width: 0, size: 1, hash: 0x1234_5678_9abc_def1 })
     }
     pub fn sum(a: Arc<RTy>, b: Arc<RTy>) -> Arc<RTy> {
         let width = a.width.max(b.width).saturating_add(1);
         let size = a.size.saturating_add(b.size).saturating_add(1);
-        Arc::new(RTy { kind: RTyKind::Sum(a, b), width, size })
+        {
+            let hash = mix(1, a.hash, b.hash);
+            Arc::new(RTy { kind: RTyKind::Sum(a, b), width, size, hash })
+        }
     }
     pub fn prod(a: Arc<RTy>, b: Arc<RTy>) -> Arc<RTy> {
         let width = a.width.saturating_add(b.width);
         let size = a.size.saturating_add(b.size).saturating_add(1);
-        Arc::new(RTy { kind: RTyKind::Prod(a, b), width, size })
+        {
+            let hash = mix(2, a.hash, b.hash);
+            Arc::new(RTy { kind: RTyKind::Prod(a, b), width, size, hash })
+        }
     }
     pub fn two() -> Arc<RTy> {
         RTy::sum(RTy::unit(), RTy::unit())
